@@ -166,8 +166,8 @@ def check_kernel(prop, tier, replay):
     sysstats = None
     if prop == "C02":
         import fam_tree
-        sys_want = fam_tree.KERNEL | {"ctl-events-differ", "fsub-events-differ", "fsub-emits-other", "order-in", "events-not-emitted", "crash"}
-        nscen, tlines, tsamples, _ = fam_tree.run_tree(prop, tier, res, sys_want, [("mixed", 0.5), ("refilter", 0.5)], 96 if tier == "quick" else 1200)
+        sys_want = fam_tree.KERNEL | {"ctl-events-differ", "fsub-events-differ", "fsub-emits-other", "order-in", "events-not-emitted", "lost-at-quiescence", "crash"}
+        nscen, tlines, tsamples, _ = fam_tree.run_tree(prop, tier, res, sys_want, [("mixed", 0.4), ("refilter", 0.4), ("ctl:relist", 0.2)], 96 if tier == "quick" else 1200)
         sysstats = {"scenarios": nscen, "trace_lines": tlines}
         total += nscen
     res.coverage = {
